@@ -134,21 +134,26 @@ def w_accessor(w, cfg):
     xs = [z3.Int(f"x{i}") for i in range(n)]
     nd = z3.Int("nodata")
     assume = [z3.And(x >= lo, x <= hi) for x in xs] + [nd >= lo, nd <= hi]
+    nd_attr = z3.Int("nodata_attr")      # "both": the array carries another nodata attribute - the explicit argument wins
+    if cfg["nodata_from"] == "both":
+        assume += [nd_attr >= lo, nd_attr <= hi]
     it.assume(*assume)
-    da = X.StubDA(xs, ("time",), list(range(n)), dtype=dt, attrs=({"nodata": nd} if cfg["nodata_from"] == "attrs" else {}))
+    attrs = {"nodata": nd} if cfg["nodata_from"] == "attrs" else ({"nodata": nd_attr} if cfg["nodata_from"] == "both" else {})
+    da = X.StubDA(xs, ("time",), list(range(n)), dtype=dt, attrs=attrs)
     rec = []
     it.lib_overrides["xarray.apply_ufunc"] = X.make_apply_ufunc(C.make_out, rec)
 
     def conc(m):
         return {"kind": "accessor", "which": which, "xx": [C.model_value(m, x) for x in xs], "nodata": C.model_value(m, nd), "window": win,
-                "dtype": dt, "nodata_from": cfg["nodata_from"], "groups": cfg.get("groups")}
+                "dtype": dt, "nodata_from": cfg["nodata_from"], "groups": cfg.get("groups"),
+                "attr_nodata": C.model_value(m, nd_attr) if cfg["nodata_from"] == "both" else None}
     if which == "rolling":
         cls = it.get_function("hdc.algo.accessors", "RollingWindowAlgos")
         cls.link_bases(it)
         inst = Instance(cls)
         inst.fields["_obj"] = da
         kw = {"window_size": win}
-        if cfg["nodata_from"] == "arg":
+        if cfg["nodata_from"] in ("arg", "both"):
             kw["nodata"] = nd
         res = it.call_function(st, cls.methods["sum"], [inst], kw)
         w.res.encoded.update(it.encoded)
@@ -179,7 +184,7 @@ def w_accessor(w, cfg):
         inst.fields["_obj"] = da
         garr = it.new_array(st, (n,), "int16", cells=list(groups))
         kw = {"groups": garr}
-        if cfg["nodata_from"] == "arg":
+        if cfg["nodata_from"] in ("arg", "both"):
             kw["nodata"] = nd
         res = it.call_function(st, cls.methods["mean_grp"], [inst], kw)
         w.res.encoded.update(it.encoded)
@@ -225,11 +230,14 @@ def configs(tier):
                 cf.append({"kind": "mean_grp", "groups": lab, "miss": list(miss)})
     for dt in ("int16", "int32", "int64"):
         for n, win in ((3, 2), (4, 3), (3, 1), (3, 3)):
-            for src in ("attrs", "arg"):
+            for src in ("attrs", "arg") + (("both",) if dt == "int16" else ()):
                 cf.append({"kind": "accessor", "which": "rolling", "n": n, "window": win, "dtype": dt, "nodata_from": src})
     for dt in ("int16", "int32"):
         for groups in ([0, 0, 1], [0, 1, 0, 1]):
             cf.append({"kind": "accessor", "which": "mean_grp", "n": len(groups), "window": 1, "dtype": dt, "nodata_from": "attrs", "groups": groups})
+            if dt == "int16":
+                cf.append({"kind": "accessor", "which": "mean_grp", "n": len(groups), "window": 1, "dtype": dt, "nodata_from": "both", "groups": groups})
+                cf.append({"kind": "accessor", "which": "mean_grp", "n": len(groups), "window": 1, "dtype": dt, "nodata_from": "arg", "groups": groups})
     return cf
 
 
